@@ -1,5 +1,8 @@
 import HydroVerif.Proto
 import HydroVerif.Model.C17
+import HydroVerif.Model.C17Spec
+import HydroVerif.Model.C17Hist
+import HydroVerif.Model.C17Round
 open HydroVerif HydroVerif.C17
 
 /-
@@ -13,6 +16,21 @@ Line protocol of the C17 model driver.
   pyresd  <params> <inputs> <meanArg> <iniArg>             wrapper model with the data mean computed in the model
   pyresdq <params> <inputs> <meanArg> <iniArg>             the same at Rat
   nanmean <xs> / nanmeanq <xs>                             the model's data mean (`nan` when no value is present)
+  simcut / rescut <params> <mean> <ini> <series> <n>       Float: the run on the first n values, then resumed on the
+                                                           rest from the lag buffer `simBuf` / `resBuf` left by them
+  hist <params> <series> <op> ...                          Float: a history of operations on one set of argument objects
+        sp:<k>:<v>  ss:<i>:<v>  sl:<i>:<v>  np:<list>  ns:<list>  fb  sim:<m>:<i>  res:<nanmean>:<m>:<i>
+        reply: the replies of the calls, `;`-separated, then `;end <params> <series>` (the contents `exec` ends with)
+  simr / resr <params> <mean> <ini> <series>               Rat with every operation ROUNDED to a 53-bit significand
+        (`Fl rnd53`, the arithmetic of the rounding theorems); reply `ok <f> [..]`, f = 1 when the run with
+        IEEE subnormals (`Fl rndD`) gives the same values (nothing entered the subnormal range)
+  boundr <params> <mean> <ini> <innov>                     evaluates the conclusions of kernel_residual_sim_rounded and
+        kernel_recursion_rounded on the `Fl rnd53` run (S = largest magnitude in sight): `ok true true`
+  linq <params> <mean> <ini> <series> <c> <d>              Rat: evaluates the statements of sim_homogeneous, residual_homogeneous,
+        sim_shift_invariant, residual_shift_invariant, kernel_sim_additive (`scaleOpt`, `shiftOpt`, `addInnov`): `ok true true`
+  `<params>` of pysim / pyres is a list token or `s<float>` for a python scalar (`paramsOf`, np.atleast_1d)
+  specq <params> <mean> <ini> <innov>                      Rat: evaluates the statements of sim_recursion (`past`,
+        `zeroNaN`) and kernel_buffer_holds_centred_past (`simBuf`, `glag`) on the model's run: `ok true true`
 
 Float tokens are 16 hex digits or `nan`; replies are `ok [..]` or `err <kind>`.
 -/
@@ -41,8 +59,164 @@ def ratOptTok? (s : String) : Option (Option Rat) :=
 
 def parseRatOptList? (s : String) : Option (List (Option Rat)) := HydroVerif.allSome ((listToks s).map ratOptTok?)
 
+/-! ### histories -/
+
+def opTok? (s : String) : Option (Op Float) :=
+  match s.splitOn ":" with
+  | ["fb"] => some .feedBack
+  | ["sp", k, v] => match k.toNat?, floatTok? v with
+    | some k, some v => some (.setParam k (optF v))
+    | _, _ => none
+  | ["ss", i, v] => match i.toNat?, floatTok? v with
+    | some i, some v => some (.setSeries i (optF v))
+    | _, _ => none
+  | ["sl", i, v] => match i.toNat?, floatTok? v with
+    | some i, some v => some (.setLast i (optF v))
+    | _, _ => none
+  | ["np", l] => (parseFloatList? l).map fun l => .newParams (l.map optF)
+  | ["ns", l] => (parseFloatList? l).map fun l => .newSeries (l.map optF)
+  | ["sim", m, i] => match argTok? m, argTok? i with
+    | some m, some i => some (.callSim m i)
+    | _, _ => none
+  | ["res", nm, m, i] => match floatTok? nm, argTok? m, argTok? i with
+    | some nm, some m, some i => some (.callRes (optF nm) m i)
+    | _, _, _ => none
+  | _ => none
+
+def fmtOptList (l : List (Option Float)) : String := fmtList (l.map fmtOptFloat)
+
+/-- replies of the calls (`run`), then the contents of the coefficient array and of the series the history
+ends with (`exec`) -/
+def histReply (ps xs : List Float) (ops : List (Op Float)) : String :=
+  let s0 : St Float := { params := ps.map optF, series := xs.map optF, last := none }
+  let rs := (run Float.isNaN s0 ops).filterMap id
+  let fin := exec Float.isNaN s0 ops
+  ";".intercalate (rs.map fmtF) ++ ";end " ++ fmtOptList fin.params ++ " " ++ fmtOptList fin.series
+
+/-- the `params` argument: a list token, or `s<float>` for a python scalar -/
+def paramArg? (s : String) : Option (List (Option Float)) :=
+  if s.startsWith "s" then (floatTok? (s.drop 1).toString).map fun x => paramsOf (.scalar (optF x))
+  else (parseFloatList? s).map fun l => paramsOf (.array (l.map optF))
+
+/-- the statements of `sim_homogeneous`, `residual_homogeneous`, `sim_shift_invariant`,
+`residual_shift_invariant` and `kernel_sim_additive` (second run: the same innovations reversed), at Rat -/
+def linCheck (ps : List (Option Rat)) (m i : Rat) (es : List (Option Rat)) (c d : Rat) : Bool :=
+  let nan : Rat → Bool := fun _ => false
+  let eqE (a b : Except Err (List Rat)) : Bool := match a, b with
+    | .ok x, .ok y => x == y
+    | .error e, .error f => e == f
+    | _, _ => false
+  let h1 := eqE (sim nan ps (scaleOpt c (some m)) (scaleOpt c (some i)) (es.map (scaleOpt c)))
+    ((sim nan ps (some m) (some i) es).map (List.map (c * ·)))
+  let h2 := eqE (residual nan ps (scaleOpt c (some m)) (scaleOpt c (some i)) (es.map (scaleOpt c)))
+    ((residual nan ps (some m) (some i) es).map (List.map (c * ·)))
+  let h3 := eqE (sim nan ps (some (m + d)) (some (i + d)) es) ((sim nan ps (some m) (some i) es).map (List.map (· + d)))
+  let h4 := eqE (residual nan ps (some (m + d)) (some (i + d)) (es.map (shiftOpt d))) (residual nan ps (some m) (some i) es)
+  let h5 := match HydroVerif.C17.allSome ps with
+    | none => true
+    | some pl =>
+      let psv := toVec pl
+      let b1 : Vector Rat pl.length := Vector.replicate pl.length (i - m)
+      let b2 : Vector Rat pl.length := Vector.replicate pl.length d
+      simRun nan psv (m + c) (Vector.zipWith (· + ·) b1 b2) (addInnov es es.reverse) ==
+        List.zipWith (· + ·) (simRun nan psv m b1 es) (simRun nan psv c b2 es.reverse)
+  h1 && h2 && h3 && h4 && h5
+
+/-! ### the rounding arithmetic -/
+
+def flOpt {rnd : Rat → Rat} (x : Option Rat) : Option (Fl rnd) := x.map fun v => ⟨v⟩
+
+def runRounded (rnd : Rat → Rat) (isSim : Bool) (ps : List (Option Rat)) (m i : Option Rat)
+    (xs : List (Option Rat)) : Except Err (List Rat) :=
+  let nan : Fl rnd → Bool := fun _ => false
+  let r := if isSim then sim nan (ps.map flOpt) (flOpt m) (flOpt i) (xs.map flOpt)
+           else residual nan (ps.map flOpt) (flOpt m) (flOpt i) (xs.map flOpt)
+  r.map fun l => l.map Fl.val
+
+def rabs (x : Rat) : Rat := if x < 0 then -x else x
+def rmax (xs : List Rat) : Rat := xs.foldl (fun a x => if a < rabs x then rabs x else a) 0
+
+/-- the conclusions of the two rounding theorems, evaluated on the `Fl rnd53` run of the kernels
+(`u = 2^-53`, `S` = the largest magnitude among mean, innovations and every lag buffer entry of every prefix) -/
+def boundCheck (ps : List Rat) (m i : Rat) (es : List (Option Rat)) : Bool × Bool :=
+  let nan : Fl rnd53 → Bool := fun _ => false
+  let psv : Vector (Fl rnd53) ps.length := toVec (ps.map fun v => (⟨v⟩ : Fl rnd53))|>.cast (by simp)
+  let mF : Fl rnd53 := ⟨m⟩
+  let iF : Fl rnd53 := ⟨i⟩
+  let buf0 : Vector (Fl rnd53) ps.length := Vector.replicate ps.length (iF - mF)
+  let esF : List (Option (Fl rnd53)) := es.map flOpt
+  let ys := simRun nan psv mF buf0 esF
+  let rs := resRun nan psv mF buf0 (ys.map some)
+  let e0 : List Rat := es.map fun e => match e with | none => 0 | some v => v
+  let bufs : List Rat := (List.range (es.length + 1)).flatMap fun n =>
+    (simBuf nan psv buf0 (esF.take n)).toList.map Fl.val
+  let S := rmax (m :: (e0 ++ bufs))
+  let u : Rat := pow2 (-53)
+  let Φ : Rat := (ps.map rabs).foldl (· + ·) 0
+  let p := ps.length
+  let b1 := 2 * (1 + Φ) * ((1 + u) ^ (2 * p + 2) - 1) * S
+  let ok1 := (rs.zip e0).all fun (r, e) => rabs (r.val - e) ≤ b1
+  -- recursion defects of the outputs, exact lags before the start = the starting buffer
+  let b2 := (1 + Φ) * ((1 + u) ^ (2 * p) - 1 + 2 * u) * S
+  let rec go (w : List Rat) (es : List Rat) (ys : List Rat) : Bool :=
+    match es, ys with
+    | e :: es, y :: ys =>
+      let d := (y - m) - (((ps.zip w).map fun (a, b) => a * b).foldl (· + ·) 0 + e)
+      rabs d ≤ b2 && go ((y - m) :: w.dropLast) es ys
+    | _, _ => true
+  (ok1, go (buf0.toList.map Fl.val) e0 (ys.map Fl.val))
+
+/-- the statements of `sim_recursion` and `kernel_buffer_holds_centred_past`, evaluated at Rat -/
+def specCheck (ps : List Rat) (m i : Rat) (es : List (Option Rat)) : Bool × Bool :=
+  let nan : Rat → Bool := fun _ => false
+  match sim nan (ps.map some) (some m) (some i) es with
+  | .error _ => (false, false)
+  | .ok ys =>
+    let ok1 := (List.range ys.length).all fun t =>
+      ys.getD t 0 - m ==
+        ((List.range ps.length).map fun k => ps.getD k 0 * (past ys i t k - m)).foldl (· + ·) 0
+          + zeroNaN (es.getD t none)
+    let psv := toVec ps
+    let buf0 : Vector Rat ps.length := Vector.replicate ps.length (i - m)
+    let run := simRun nan psv m buf0 es
+    let fin := simBuf nan psv buf0 es
+    let ok2 := (List.range ps.length).all fun k =>
+      if h : k < ps.length then fin[k] == glag run buf0 m es.length k h else true
+    (ok1, ok2)
+
 def handle (toks : List String) : String :=
   match toks with
+  | "hist" :: ps :: xs :: ops =>
+    match parseFloatList? ps, parseFloatList? xs, HydroVerif.allSome (ops.map opTok?) with
+    | some ps, some xs, some ops => histReply ps xs ops
+    | _, _, _ => "bad-op"
+  | ["pyres", ps, xs, nm, m, i] =>
+    match paramArg? ps, parseFloatList? xs, floatTok? nm, argTok? m, argTok? i with
+    | some ps, some xs, some nm, some meanArg, some iniArg =>
+      fmtF (pyResidual Float.isNaN ps (xs.map optF) (optF nm) meanArg iniArg)
+    | _, _, _, _, _ => "bad-op"
+  | ["linq", ps, m, i, xs, c, d] =>
+    match parseRatOptList? ps, ratTok? m, ratTok? i, parseRatOptList? xs, ratTok? c, ratTok? d with
+    | some ps, some m, some i, some xs, some c, some d => s!"ok {linCheck ps m i xs c d} true"
+    | _, _, _, _, _, _ => "bad-op"
+  | [op, ps, m, i, xs, n] =>
+    if op = "simcut" || op = "rescut" then
+      match parseFloatList? ps, floatTok? m, floatTok? i, parseFloatList? xs, n.toNat? with
+      | some ps, some m, some i, some xs, some n =>
+        match validate (ps.map optF) (optF m) (optF i) with
+        | .error e => "err " ++ errName e
+        | .ok (ps, m, i) =>
+          let xs := xs.map optF
+          let psv := toVec ps
+          let buf0 : Vector Float ps.length := Vector.replicate ps.length (i - m)
+          if op = "simcut" then
+            fmtF (.ok (simRun Float.isNaN psv m buf0 (xs.take n) ++
+              simRun Float.isNaN psv m (simBuf Float.isNaN psv buf0 (xs.take n)) (xs.drop n)))
+          else
+            fmtF (.ok (resRun Float.isNaN psv m buf0 (xs.take n) ++
+              resRun Float.isNaN psv m (resBuf Float.isNaN psv m buf0 (xs.take n)) (xs.drop n)))
+      | _, _, _, _, _ => "bad-op"
+    else "bad-op"
   | ["pyresd", ps, xs, m, i] =>
     -- armodel_residual with the data mean computed in the model (sequential sum)
     match parseFloatList? ps, parseFloatList? xs, argTok? m, argTok? i with
@@ -72,18 +246,27 @@ def handle (toks : List String) : String :=
         if op = "simq" then fmtQ (sim (fun _ => false) ps m i xs)
         else fmtQ (residual (fun _ => false) ps m i xs)
       | _, _, _, _ => "bad-op"
+    else if op = "simr" || op = "resr" then
+      match parseRatOptList? ps, ratOptTok? m, ratOptTok? i, parseRatOptList? xs with
+      | some ps, some m, some i, some xs =>
+        match runRounded rnd53 (op = "simr") ps m i xs, runRounded rndD (op = "simr") ps m i xs with
+        | .ok a, .ok b => "ok " ++ (if a == b then "1 " else "0 ") ++ fmtRatList a
+        | .error e, _ => "err " ++ errName e
+        | _, .error e => "err " ++ errName e
+      | _, _, _, _ => "bad-op"
+    else if op = "boundr" || op = "specq" then
+      match parseRatList? ps, ratTok? m, ratTok? i, parseRatOptList? xs with
+      | some ps, some m, some i, some xs =>
+        let r := if op = "boundr" then boundCheck ps m i xs else specCheck ps m i xs
+        s!"ok {r.1} {r.2}"
+      | _, _, _, _ => "bad-op"
     else if op = "pysim" then
       -- pysim <params> <innov> <meanArg> <iniArg>
-      match parseFloatList? ps, parseFloatList? m, argTok? i, argTok? xs with
+      match paramArg? ps, parseFloatList? m, argTok? i, argTok? xs with
       | some ps, some innov, some meanArg, some iniArg =>
-        fmtF (pySim Float.isNaN (ps.map optF) (innov.map optF) meanArg iniArg)
+        fmtF (pySim Float.isNaN ps (innov.map optF) meanArg iniArg)
       | _, _, _, _ => "bad-op"
     else "bad-op"
-  | ["pyres", ps, xs, nm, m, i] =>
-    match parseFloatList? ps, parseFloatList? xs, floatTok? nm, argTok? m, argTok? i with
-    | some ps, some xs, some nm, some meanArg, some iniArg =>
-      fmtF (pyResidual Float.isNaN (ps.map optF) (xs.map optF) (optF nm) meanArg iniArg)
-    | _, _, _, _, _ => "bad-op"
   | ["nanmean", xs] =>
     match parseFloatList? xs with
     | some xs => fmtOptFloat (dataMean Float.isNaN (xs.map optF))
